@@ -64,7 +64,10 @@ impl<'a> Cursor<'a> {
 }
 
 /// Counter values used by every source: edges of the 50/75-move rules and of u16, plus random.
-pub const COUNTER_EDGES: [u16; 15] = [0, 1, 2, 49, 50, 98, 99, 100, 101, 148, 149, 150, 151, 65534, 65535];
+/// Rule boundaries (50/75-move rule in plies, saturation) and representation boundaries (digit counts, byte and sign widths).
+pub const COUNTER_EDGES: [u16; 29] = [
+    0, 1, 2, 9, 10, 11, 49, 50, 98, 99, 100, 101, 148, 149, 150, 151, 255, 256, 257, 999, 1000, 1001, 9999, 10000, 10001, 32767, 32768, 65534, 65535,
+];
 
 pub fn gen_counter(cur: &mut Cursor) -> u16 {
     let sel = cur.u8();
